@@ -201,12 +201,13 @@ func runCPK(c *eng.Ctx, cf cfg) {
 	pl := &pool{}
 	pl.add(er)
 	// more keys from the same parties (fresh errors) feed the statistical pool
+	// (the share buffers are reused: GenShare must overwrite what they held)
 	for pl.n < 2048 {
 		sum := protos[0].AllocateShare()
 		for i := range protos {
-			s := protos[i].AllocateShare()
-			protos[i].GenShare(e.sks[i], crps[i], &s)
-			protos[0].AggregateShares(sum, s, &sum)
+			protos[i].GenShare(e.sks[i], crps[i], &shares[i])
+			c.Count("share_buffers_reused", 1)
+			protos[0].AggregateShares(sum, shares[i], &sum)
 		}
 		rqp.MulCoeffsMontgomery(crps[0].Value, e.ideal.Value, ph)
 		rqp.Add(ph, sum.Value, ph)
